@@ -411,6 +411,7 @@ def expected(world, pats):
     """(required, allowed): physical paths that must / may be deleted."""
     required, allowed = set(), set()
     nodes = world.all_nodes()
+    req_items = []
     for pat, want_dir in pats:
         segs = pat.split('/')
         for node in nodes:
@@ -425,7 +426,19 @@ def expected(world, pats):
             if loose:
                 world.subtree_phys(node, allowed)
             if strict:
-                world.subtree_phys(node, required)
+                # a symlink matches a directories-only pattern ('x/') only
+                # while its target directory exists
+                cond = (os.path.realpath(node.phys)
+                        if want_dir and node.kind == 'l' else None)
+                req_items.append((node, cond))
+    for node, cond in req_items:
+        if cond is not None and any(
+                cond == a or cond.startswith(a + '/') for a in allowed):
+            # the patterns of one command are applied one after the other in
+            # no stated order: if another pattern may delete the target
+            # first, the link no longer matches when its pattern is globbed
+            continue
+        world.subtree_phys(node, required)
     return required, allowed
 
 
